@@ -66,6 +66,12 @@ pub fn eval(kind: Kind, s: &mut Sess, bytes: &[u8]) -> Outcome {
             if bytes[i..].starts_with(b"@ID@") {
                 out.extend_from_slice(id);
                 i += 4;
+            } else if bytes[i..].starts_with(b"&#64;ID@") {
+                // the placeholder with its first character written as a character reference:
+                // the id with its first digit written as one
+                out.extend_from_slice(format!("&#x{:x};", id[0]).as_bytes());
+                out.extend_from_slice(&id[1..]);
+                i += 8;
             } else {
                 out.push(bytes[i]);
                 i += 1;
@@ -132,6 +138,8 @@ pub enum Atom {
     RedeclareNs(usize),
     CommentInText(usize),
     UnusedDecl(usize),
+    PadCr(usize),
+    CharRefAttrs(usize),
 }
 
 fn style_of(atoms: &[Atom], kind: Kind) -> Style {
@@ -163,6 +171,8 @@ fn style_of(atoms: &[Atom], kind: Kind) -> Style {
             Atom::RedeclareNs(s) => st.redeclare_ns.push(*s),
             Atom::CommentInText(s) => st.comment_in_text.push(*s),
             Atom::UnusedDecl(s) => st.unused_decl.push(*s),
+            Atom::PadCr(s) => st.pad_token_cr.push(*s),
+            Atom::CharRefAttrs(s) => st.charref_attrs.push(*s),
         }
     }
     if is_message(kind) {
@@ -192,6 +202,10 @@ fn atoms_for(tree: &N) -> Vec<Atom> {
     for (site, n, _) in &sites {
         if n.token && n.text.is_some() {
             v.push(Atom::Pad(*site));
+            v.push(Atom::PadCr(*site));
+        }
+        if !n.attrs.is_empty() {
+            v.push(Atom::CharRefAttrs(*site));
         }
         if !n.kids.is_empty() {
             for p in 0..=n.kids.len() {
@@ -254,6 +268,8 @@ fn atom_label(a: &Atom, tree: &N) -> String {
         Atom::RedeclareNs(s) => format!("{}:namespace-redeclared", name(*s)),
         Atom::CommentInText(s) => format!("{}:comment-inside-text", name(*s)),
         Atom::UnusedDecl(s) => format!("{}:unused-declaration-on-a-leaf-rebinding-what-its-siblings-use", name(*s)),
+        Atom::PadCr(s) => format!("{}:whitespace-with-cr-and-tab-around-token", name(*s)),
+        Atom::CharRefAttrs(s) => format!("{}:attribute-value-with-character-reference", name(*s)),
     }
 }
 
